@@ -4,7 +4,9 @@ A *history* is JSON-able data (all times are integer MICROSECONDS):
 
   top-level command   ["do", cmd] | ["start"] | ["start_test"] | ["advto", t] | ["advby", d]
   command             ["sched", when, label, body] | ["cancel", r] | ["stop"] | ["sleep", d] |
-                      ["raise", e] | ["note", n] | ["periodic", p, table, st0] | ["pcancel", pid]
+                      ["raise", e] | ["note", n] | ["periodic", p, table, st0] | ["pcancel", pid] |
+                      ["nstart"] | ["nadvto", t] | ["nadvby", d]   (only inside a body: start() /
+                      advance_to(t) / advance_by(d) called on the scheduler from INSIDE a running action)
   when                ["rel", d] | ["abs", t] | ["now"]
   body                list of commands (what the action does when it runs, after logging
                       (label, clock reading))
@@ -15,6 +17,18 @@ A *history* is JSON-able data (all times are integer MICROSECONDS):
 `run_impl` executes it on the real scheduler and returns the observation list
 (the same alphabet as Core/VTime.v `oev`); `g_history` prints it as a Gallina
 `list tcmd`; `g_obs` prints an observation list.
+
+Nested run-loop calls have no constructor in Core/VTime.v.  While a run loop is active
+(`_is_enabled`) they are guarded no-ops, so `g_history` ERASES them (advance_by(d < 0), whose
+argument check precedes the guard, is printed as the equally ArgumentOutOfRange-raising
+`SSleep d`): the correspondence then says that the implementation treats them as no-ops.
+`model_ok(h)` tells whether that rendering is faithful (no `nadvto`, whose argument check depends
+on the clock, and no nested call after a `stop` in the same body, which really re-enters the loop).
+
+Every schedule call passes a fresh `state` object; the action checks that it receives that very
+object (trace event "badstate" otherwise).  `cancel r` disposes the disposable RETURNED by the
+r-th schedule call (for items the harness did not schedule itself -- periodic re-arms,
+TestScheduler.start's items -- the disposable recorded by the instrumentation hook).
 """
 from __future__ import annotations
 
@@ -23,6 +37,7 @@ from datetime import datetime, timedelta
 import lib
 
 US = 1_000_000
+NEST = ("nstart", "nadvto", "nadvby")
 WORLDS = ("vts", "test", "hist")        # VirtualTimeScheduler, TestScheduler, HistoricalScheduler
 KIND = {"vts": "Numeric", "test": "Numeric", "hist": "Datetime"}
 AOOR = -1
@@ -123,6 +138,7 @@ def run_impl(world, c0, history, catch=None, timeout=10.0, iwp=False, clock_via=
     obs = []
     trace = []          # richer event list for the oracles (never compared with the model)
     phandles = []
+    rets = {}           # item id -> the disposable RETURNED by the schedule call that created it
     depth = [0]         # > 0 while an action (or a periodic action) is running
     s._enq_hook = lambda i, due: trace.append(("enq", i, w.us(due)))
 
@@ -138,7 +154,7 @@ def run_impl(world, c0, history, catch=None, timeout=10.0, iwp=False, clock_via=
             code = ex.code if isinstance(ex, UserErr) else (AOOR if isinstance(ex, ArgumentOutOfRangeException) else -99)
             obs.append(("handler", code))
             v = catch[str(code)] if str(code) in catch else catch.get(code, False)
-            trace.append(("handler", code, bool(v)))
+            trace.append(("handler", code, v is True, repr(v)))     # only True swallows (C42 statement)
             return v
         top = CatchScheduler(s, handler)
     else:
@@ -157,6 +173,7 @@ def run_impl(world, c0, history, catch=None, timeout=10.0, iwp=False, clock_via=
             if r[0] == "next":
                 if len(r) > 3 and r[3]:
                     before = read()
+                    trace.append(("sleepb",))
                     s.sleep(w.rel_(r[3]))                 # the periodic action takes virtual time
                     trace.append(("sleep", r[3], before, read()))
                 return r[2]
@@ -177,33 +194,45 @@ def run_impl(world, c0, history, catch=None, timeout=10.0, iwp=False, clock_via=
             # the due time the call asks for (specification, not the implementation's arithmetic)
             due = when[1] if when[0] == "abs" else before + when[1] if when[0] == "rel" else before
 
-            def action(sc2, state, label=label, body=body, iid=iid):
+            token = ["state", iid]          # fresh object: the action must receive this very object
+
+            def action(sc2, state, label=label, body=body, iid=iid, token=token):
                 k_ = read()
                 if label >= 0:
                     obs.append(("run", label, k_))
                 trace.append(("run", iid, label, k_))
+                if state is not token:
+                    trace.append(("badstate", iid, label, repr(state)))
                 depth[0] += 1
                 try:
                     for c in body:
                         do(sc2, c, sd + 1)
                 finally:
                     depth[0] -= 1
+                    trace.append(("end", iid))
+            # state is passed positionally / by keyword alternately (both are the public signature)
+            kw = iid % 2 == 1
             if when[0] == "rel":
-                sc.schedule_relative(w.rel_(when[1]), action)
+                ret = (sc.schedule_relative(w.rel_(when[1]), action, state=token) if kw else
+                       sc.schedule_relative(w.rel_(when[1]), action, token))
             elif when[0] == "abs":
-                sc.schedule_absolute(w.abs_(when[1]), action)
+                ret = (sc.schedule_absolute(w.abs_(when[1]), action, state=token) if kw else
+                       sc.schedule_absolute(w.abs_(when[1]), action, token))
             else:
-                sc.schedule(action)
+                ret = sc.schedule(action, state=token) if kw else sc.schedule(action, token)
+            if len(s._handles) == iid + 1:
+                rets[iid] = ret
             trace.append(("sched", iid, label, due, before))
         elif k == "cancel":
             if cmd[1] < len(s._handles):
-                trace.append(("cancel", cmd[1]))
-                s._handles[cmd[1]].dispose()
+                trace.append(("cancel", cmd[1], "returned" if cmd[1] in rets else "hook"))
+                (rets[cmd[1]] if cmd[1] in rets else s._handles[cmd[1]]).dispose()
         elif k == "stop":
             trace.append(("stop",))
             s.stop()
         elif k == "sleep":
             before = read()
+            trace.append(("sleepb",))
             try:
                 s.sleep(w.rel_(cmd[1]))
             except ArgumentOutOfRangeException:
@@ -211,6 +240,28 @@ def run_impl(world, c0, history, catch=None, timeout=10.0, iwp=False, clock_via=
                 trace.append(("raise", AOOR, depth[0], None, sd))
                 raise
             trace.append(("sleep", cmd[1], before, read()))
+        elif k in NEST:
+            # start() / advance_to() / advance_by() issued from inside a running action
+            before = read()
+            arg = cmd[1] if len(cmd) > 1 else None
+            trace.append(("nest", k, arg, before, depth[0]))
+            own = (k == "nadvto" and arg < before) or (k == "nadvby" and arg < 0)
+            try:
+                if k == "nstart":
+                    VirtualTimeScheduler.start(s)
+                elif k == "nadvto":
+                    s.advance_to(w.abs_(arg))
+                else:
+                    s.advance_by(w.rel_(arg))
+            except ArgumentOutOfRangeException:
+                trace.append(("nestret", read()))
+                if own:                 # the call's own argument check (precedes the _is_enabled guard)
+                    trace.append(("raise", AOOR, depth[0], None, sd))
+                raise
+            except Exception:
+                trace.append(("nestret", read()))
+                raise
+            trace.append(("nestret", read()))
         elif k == "raise":
             trace.append(("raise", cmd[1], depth[0], None, sd))
             raise UserErr(cmd[1])
@@ -294,10 +345,17 @@ def g_when(wh):
     return "Now"
 
 
+def _erased(c):
+    """nested run-loop calls that are guarded no-ops while a loop is active (see module docstring)"""
+    return c[0] == "nstart" or (c[0] == "nadvby" and c[1] >= 0)
+
+
 def g_cmd(c):
     k = c[0]
     if k == "sched":
-        return f"SSched {g_when(c[1])} {gz(c[2])} [" + "; ".join(g_cmd(x) for x in c[3]) + "]"
+        return f"SSched {g_when(c[1])} {gz(c[2])} [" + "; ".join(g_cmd(x) for x in c[3] if not _erased(x)) + "]"
+    if k == "nadvby" and c[1] < 0:
+        return f"SSleep {gz(c[1])}"         # raises ArgumentOutOfRangeException before the guard, like sleep(d < 0)
     if k == "cancel":
         return f"SCancel {c[1]}%nat"
     if k == "stop":
@@ -370,6 +428,37 @@ def has(h, kinds):
     return any((t[0] in kinds) or (t[0] == "do" and c_has(t[1])) for t in h)
 
 
+def nest_info(h):
+    """-> (number of nested run-loop calls, number of them after a `stop` in the same body,
+    number of `nadvto`)"""
+    n = [0, 0, 0]
+
+    def body(b):
+        stopped = False
+        for c in b:
+            if c[0] == "stop":
+                stopped = True
+            elif c[0] in NEST:
+                n[0] += 1
+                n[1] += stopped
+                n[2] += c[0] == "nadvto"
+            elif c[0] == "sched":
+                body(c[3])
+    for t in h:
+        if t[0] == "do":
+            if t[1][0] in NEST:
+                raise ValueError("nested run-loop calls are body commands")
+            if t[1][0] == "sched":
+                body(t[1][3])
+    return tuple(n)
+
+
+def model_ok(h):
+    """is g_history(h) a faithful input for Core/VTime.v (see module docstring)"""
+    n, after_stop, advto = nest_info(h)
+    return after_stop == 0 and advto == 0
+
+
 # ------------------------------------------------------------------ generators
 
 class Gen:
@@ -377,7 +466,8 @@ class Gen:
 
     def __init__(self, rng, unit=US, labels=None, allow=("cancel", "stop", "sleep"), max_depth=3,
                  neg=True, raise_p=0.0, periodic_p=0.0,
-                 table_kinds=("count", "count", "cycle", "raise", "disp"), sleep_p=0.0):
+                 table_kinds=("count", "count", "cycle", "raise", "disp"), sleep_p=0.0,
+                 nest_p=0.0, nest_after_stop=False, nest_advto=True):
         self.rng, self.unit, self.allow, self.max_depth = rng, unit, allow, max_depth
         self.next_label = 0
         self.neg = neg
@@ -386,6 +476,8 @@ class Gen:
         self.nper = 0
         self.table_kinds = table_kinds
         self.sleep_p = sleep_p
+        # nested start()/advance_to()/advance_by() inside action bodies (no rng draw when nest_p == 0)
+        self.nest_p, self.nest_after_stop, self.nest_advto = nest_p, nest_after_stop, nest_advto
 
     def delay(self):
         r = self.rng
@@ -426,8 +518,19 @@ class Gen:
             default = ["next", [], 0]
         return [entries, default]
 
+    def nested(self):
+        r = self.rng
+        x = r.random()
+        if x < 0.35:
+            return ["nstart"]
+        if x < 0.8 or not self.nest_advto:
+            return ["nadvby", r.choice([0, 1, 1, 2, 3, 5, 10] + ([-1] if self.neg else [])) * self.unit]
+        return ["nadvto", self.abst() + r.choice([0, 0, 1, 3]) * self.unit]
+
     def cmd(self, depth):
         r = self.rng
+        if self.nest_p and depth >= 1 and r.random() < self.nest_p:
+            return self.nested()
         x = r.random()
         if x < self.raise_p:
             return ["raise", r.randrange(0, 3)]
@@ -458,8 +561,13 @@ class Gen:
         self.nsched += 1
         body = []
         if depth < self.max_depth:
+            stopped = False
             for _ in range(r.choice([0, 0, 1, 1, 2, 3])):
-                body.append(self.cmd(depth + 1))
+                c = self.cmd(depth + 1)
+                if c[0] in NEST and stopped and not self.nest_after_stop:
+                    continue        # after stop() in the same body the call really re-enters the loop
+                stopped = stopped or c[0] == "stop"
+                body.append(c)
         return ["sched", self.when(), label, body]
 
     def top(self, world, bounded_only=False):
@@ -504,6 +612,21 @@ def oracle_vt(world, trace, check_exact=True):
     n_cancels = 0         # cancelled items are dequeued silently and count as spin iterations
     ran_in_top = []
     exc_in_top = None
+    open_n = 0            # actions currently running (between their "run" and "end" events)
+    in_sleep = 0          # > 0 between the call of sleep() and its return
+    relooped = False      # a nested start()/advance call was issued after stop() in this top-level call:
+                          # it legitimately re-enters the run loop (nothing about that is judged)
+
+    def invoked(ev, what):
+        """an action (or periodic action) is being invoked: may it run here at all?"""
+        if in_sleep:
+            bad.append(("action-ran-during-sleep", f"{what} {ev} ran inside sleep()"))
+        elif top is not None and top[1] == "do":
+            bad.append(("action-ran-outside-start-or-advance",
+                        f"{what} {ev} ran during a top-level schedule/cancel/stop/sleep call"))
+        elif open_n > 0 and not relooped:
+            bad.append(("nested-run", f"{what} {ev} ran while another action was still running (a start()/"
+                                      f"advance_to()/advance_by() issued from inside an action must return at once)"))
 
     def reading(k, what):
         nonlocal cur
@@ -521,6 +644,7 @@ def oracle_vt(world, trace, check_exact=True):
             ran_in_top = []
             exc_in_top = None
             pops_since_move = 0
+            open_n, in_sleep, relooped = 0, 0, False
         elif k == "enq":
             enq_due[ev[1]] = ev[2]
             if ev[1] not in pending:
@@ -538,7 +662,18 @@ def oracle_vt(world, trace, check_exact=True):
         elif k == "stop":
             stopped = True
             stuck = False
+        elif k == "sleepb":
+            in_sleep += 1
+        elif k == "end":
+            open_n = max(0, open_n - 1)
+        elif k == "nest":
+            reading(ev[3], "before a nested start/advance call")
+            if stopped:
+                relooped = True
+        elif k == "nestret":
+            reading(ev[1], "after a nested start/advance call")
         elif k == "sleep":
+            in_sleep = max(0, in_sleep - 1)
             _, d, before, after = ev
             reading(before, "before sleep")
             if d >= 0 and after != before + d:
@@ -548,6 +683,8 @@ def oracle_vt(world, trace, check_exact=True):
             reading(after, "after sleep")
         elif k == "run":
             _, iid, label, clk = ev
+            invoked(ev, "action")
+            open_n += 1
             if iid not in pending:
                 bad.append(("ran-twice-or-unscheduled", f"item {iid} label {label}"))
                 continue
@@ -564,7 +701,8 @@ def oracle_vt(world, trace, check_exact=True):
             exp = max(before, due)
             if clk != exp:
                 skipped = [dj for j, (dj, lj, cj) in pending.items() if cj and exp < dj <= clk]
-                bumped = (top is not None and top[1] in ("start", "start_test") and clk == before + BUMP[world]
+                bumped = (top is not None and (top[1] in ("start", "start_test") or relooped)
+                          and clk == before + BUMP[world]
                           and due <= before and pops_since_move + n_cancels > 100)
                 if not (bumped or (skipped and clk == max(skipped))):
                     bad.append(("clock-at-run", f"item {iid} due {due} ran with clock {clk}; clock before {before}"))
@@ -574,6 +712,7 @@ def oracle_vt(world, trace, check_exact=True):
             reading(clk, "at run")
             ran_in_top.append((iid, due))
         elif k == "tick":
+            invoked(ev, "periodic action")
             reading(ev[3], "at periodic tick")
         elif k == "exc":
             exc_in_top = ev[1]
@@ -587,7 +726,7 @@ def oracle_vt(world, trace, check_exact=True):
                     stuck = True
                 if exc_in_top is None and not stuck and check_exact:
                     late = [(i, d) for i, d in ran_in_top if d > target]
-                    if late:
+                    if late and not relooped:
                         bad.append(("advance-ran-item-due-after-target", f"target {target}: ran {late}"))
                     left = sorted((d, i) for i, (d, l, c) in pending.items() if not c and l is not None and d <= target)
                     if target == before:
@@ -620,6 +759,8 @@ def oracle_catch(trace):
     """Direct predicate of the C42 statement on the implementation's trace of a
     history run through CatchScheduler.  Returns [(signature, detail)]."""
     bad = []
+    # bookkeeping events of the C28 oracle are not part of this predicate (keeps raise/handler adjacent)
+    trace = [e for e in trace if e[0] not in ("end", "sleepb", "nest", "nestret")]
     dead = set()        # periodic subscriptions whose action raised
     seg_handlers = []   # handler events of the current top-level call
     seg_after_reject = False
@@ -643,9 +784,13 @@ def oracle_catch(trace):
             seg_handlers.append(ev)
             if not ev[2]:
                 seg_after_reject = True
+        elif k == "badstate":
+            bad.append(("action-did-not-receive-its-state",
+                        f"item {ev[1]} label {ev[2]} was scheduled with a state object and invoked with {ev[3]}"))
         elif k in ("run", "tick"):
             if seg_after_reject:
-                bad.append(("work-continued-after-rejected-exception", f"{ev} after the handler returned False"))
+                bad.append(("work-continued-after-rejected-exception",
+                            f"{ev} after the handler returned a value other than True"))
             if k == "tick" and ev[1] in dead:
                 bad.append(("periodic-called-after-failure", f"{ev}"))
         elif k == "exc":
@@ -653,7 +798,8 @@ def oracle_catch(trace):
         elif k == "ret":
             rejected = [h for h in seg_handlers if not h[2]]
             if exc is None and rejected:
-                bad.append(("rejected-exception-swallowed", f"handler returned False for {rejected[0][1]} but the call returned normally"))
+                bad.append(("rejected-exception-swallowed", f"handler returned {rejected[0][3] if len(rejected[0]) > 3 else False} (not True) for "
+                                                            f"{rejected[0][1]} but the call returned normally"))
             if exc is not None and seg_handlers and not rejected:
                 bad.append(("accepted-exception-propagated", f"call raised {exc} although the handler accepted {seg_handlers}"))
             if exc is not None and rejected and rejected[-1][1] != exc:
